@@ -21,7 +21,11 @@ TRUSTED = ["pytools.UniqueNameGenerator (third party) is modelled: counter regex
 
 ALPHA = ["a", "A", "_", "0", "<", ">", "^", " ", "é"]
 TAGS = ["<state>", "<p>", "<cond>", "<func>", "<ret_time>", "<ret_state>", "<ret_time_id>", "<dt>", "<t>", ""]
+# near misses of the persistent tags: per-step names all of them
+NEAR_TAGS = ["<ret_timer>", "<ret_time_idx>", "<ret_time", "<ret_times>", "<ret_states>", "<ret_state", "<states>", "<state", "<State>",
+             "<P>", "<pp>", "<p", "<t>_", "<dt>_", "<t>x", "<dt>x", "<T>", "<ret_time_id", "<ret>", "state>", "<<state>"]
 PY_KEYWORDS = set(keyword.kwlist)
+PREDEFINED = {"dagrt_t", "dagrt_dt"}     # registered with the Fortran name generator from the start
 FORTRAN_RESERVED = {"dagrt_t", "dagrt_dt", "dagrt_state", "dagrt_next_phase", "dagrt_step",
                     "dagrt_ierr", "dagrt_stderr", "dagrt_nan"}       # fixed identifiers of the generated module
 
@@ -37,13 +41,15 @@ def short_names():
 def rand_name(rng):
     r = rng.random()
     base = "".join(rng.choice("xyzXY_01") for _ in range(rng.randint(1, 4)))
-    if r < 0.3:
+    if r < 0.25:
         return rng.choice(TAGS) + base
+    if r < 0.3:
+        return rng.choice(NEAR_TAGS) + rng.choice([base, "", "y"])
     if r < 0.45:
         return rng.choice(["local_x_0", "localx", "lploc_y", "lploc_Y", "x_007", "x_7", "y_1_2", "y_1", "dagrt_z", "dagrt_T",
                            "x_0", "x", "X", "global_x", "self.global_x", "drtf_a", "dagrt_refcnt_x", "x__3", "x_", "_x", "1x",
                            # the generator's own fixed identifiers in ANOTHER letter case (Fortran does not tell them apart)
-                           "Dagrt_Ierr", "DAGRT_STATE", "Dagrt_stderr", "Dagrt_Nan", "DAGRT_STEP"])
+                           "dagrt_t", "dagrt_dt", "Dagrt_DT", "DAGRT_T", "Dagrt_Ierr", "DAGRT_STATE", "Dagrt_stderr", "Dagrt_Nan", "DAGRT_STEP"])
     if r < 0.5:
         return rng.choice(TAGS) + base + rng.choice([">", "->", "<", ">>", "<p>", "<state>"]) + base
     if r < 0.55:
@@ -70,6 +76,10 @@ def cases(rng, tier):
             for lang in ("python", "fortran"):
                 yield {"op": "C13.names", "tag": "exh-tagged", "lang": lang,
                        "ops": [["var", tag + body], ["var", tag + body], ["refcount", tag + body] if lang == "fortran" else ["var", body]]}
+    for tag in NEAR_TAGS:
+        for body in ["", "y", "a>b"]:
+            for lang in ("python", "fortran"):
+                yield {"op": "C13.names", "tag": "near-tag", "lang": lang, "ops": [["var", tag + body], ["var", tag + body]]}
     for cp in list(range(0x300)) + [0x3b1, 0x4e2d, 0x1f600, 0x660]:
         yield {"op": "C13.ident", "tag": "ident", "name": "x" + chr(cp) + "y"}
         yield {"op": "C13.ident", "tag": "ident", "name": chr(cp)}
@@ -190,7 +200,8 @@ def oracle(case, out):
             if len(bare) > 63:
                 return {"what": f"{k} {n!r} -> identifier of {len(bare)} > 63 characters", "sig": "too-long", "fkind": "f-too-long"}
             if bare.lower() in FORTRAN_RESERVED and n not in ("<t>", "<dt>"):
-                return {"what": f"{k} {n!r} mapped to the reserved identifier {ident!r}", "sig": "reserved", "okind": k}
+                return {"what": f"{k} {n!r} mapped to the reserved identifier {ident!r}", "sig": "reserved", "okind": k,
+                        "rname": bare.lower()}
     return None
 
 
@@ -239,6 +250,8 @@ def fortran_function_name_leading_digit(case, fail, **kw):
 @matcher
 def fortran_user_name_with_dagrt_prefix(case, fail, **kw):
     """an IR variable that itself starts with 'dagrt_' is passed through without the lploc_ prefix"""
+    if fail.get("rname") in PREDEFINED:
+        return False        # these two the manager does reserve: handing one out is another defect
     return case.get("lang") == "fortran" and fail.get("sig") in ("collision", "reserved") and \
         any(k == "var" and n.startswith("dagrt_") for k, n in case["ops"])
 
@@ -246,4 +259,5 @@ def fortran_user_name_with_dagrt_prefix(case, fail, **kw):
 @matcher
 def fortran_function_name_reserved(case, fail, **kw):
     """a FUNCTION identifier spelled like one of the generator's fixed identifiers (function ids get no prefix)"""
-    return case.get("lang") == "fortran" and fail.get("sig") == "reserved" and fail.get("okind") == "func"
+    return case.get("lang") == "fortran" and fail.get("sig") == "reserved" and fail.get("okind") == "func" and \
+        fail.get("rname") not in PREDEFINED
